@@ -137,6 +137,10 @@ func stChild(op, addr string) {
 		events++
 		mu.Unlock()
 		os.Stdout.WriteString("EV\n")
+		if strings.HasPrefix(t[1], "lpanic") {
+			// a listener that fails on an event BEFORE acknowledging it: the library must not settle the event on its behalf
+			panic("verif: listener panic")
+		}
 		ctx.Ack()
 	}
 	d, err := dcp.NewDcp(cfg, listener)
@@ -227,6 +231,7 @@ var stGuards = []struct{ text, class string }{
 	{"error while load checkpoint", "load-error"},
 	{"error while loading checkpoint document", "load-error"},
 	{"nil pointer dereference", "nil-deref"},
+	{"verif: listener panic", "listener-panic"},
 }
 
 func stClassify(stderr string) string {
@@ -1167,6 +1172,13 @@ func runC15W(c *Ctx) {
 			large(n, 1, fmt.Sprintf("large-n%d", n))
 		}
 		large(342, 1, "large-n342")
+		// N. the consumer's listener panics on its first event before acknowledging it: the panic is the consumer's - the process
+		// ends with it; the library neither swallows it nor acknowledges the event on the consumer's behalf
+		for _, n := range []int{1, 3} {
+			s := stBase(name("lpanic"), n, r)
+			s.push = true
+			add(s.op(f7), "listener-panic")
+		}
 		// M. a stored checkpoint document without its snapshot section: checkpoint.Load dereferences it - the client stops (it must
 		// not go on with an invented [0,0] window around a non-zero seqno)
 		for _, vb := range []int{0, 2} {
